@@ -221,6 +221,9 @@ class FunctionDefinition:
             value = args[i]
             if value is utils.NO_VALUE:
                 value = positional_args[i].default
+                if value is NO_DEFAULT:
+                    # an empty slot stands for a default; *args has none
+                    return None
             if not positional_args[i].value_type.check(value, context, engine):
                 return None
         # every keyword argument - matched by name above or collected by
@@ -295,6 +298,8 @@ class FunctionDefinition:
         if len(args) > positional:
             if '*' in self.parameters:
                 argdef = self.parameters['*']
+                if any(t is utils.NO_VALUE for t in args[positional:]):
+                    raise exceptions.ArgumentException('*')
                 positional_args.extend(
                     map(lambda t: checked(t, argdef), args[positional:]))
             else:
